@@ -28,6 +28,7 @@ import (
 const (
 	c45FindTwoRoutes = "C45-name-in-two-routes"
 	c45FindAutoClose = "C45-html-autoclose-name"
+	c45FindEncoding  = "C45-declared-non-utf8-encoding"
 )
 
 // names encoding/xml's HTMLAutoClose table treats as void elements (case-insensitively)
@@ -453,6 +454,8 @@ func (g *c45Gen) textItem() c45Item {
 
 type c45Case struct {
 	root *c45Node
+	raw  []byte // the bytes handed to ExplodeXML (xml in the declared encoding)
+	enc  string
 	xml  string
 	cfg  ExplodeConfig
 	excl map[string]bool
@@ -460,12 +463,55 @@ type c45Case struct {
 	two  bool
 }
 
-func c45Serialize(t *rapid.T, root *c45Node) string {
+// c45Encode renders the document text in a declared single-byte encoding: characters the
+// encoding cannot represent are written as numeric character references (they only occur in
+// text and attribute values: names, CDATA, comments and PIs of the generator are ASCII).
+func c45Encode(doc string, maxRune rune) (string, []byte) {
+	var text strings.Builder
+	var raw []byte
+	for _, r := range doc {
+		if r > maxRune {
+			ref := fmt.Sprintf("&#%d;", r)
+			text.WriteString(ref)
+			raw = append(raw, ref...)
+			continue
+		}
+		text.WriteRune(r)
+		raw = append(raw, byte(r))
+	}
+	return text.String(), raw
+}
+
+// c45Serialize returns the document as text, the bytes handed to ExplodeXML and the declared encoding.
+func c45Serialize(t *rapid.T, root *c45Node, excl map[string]bool) (string, []byte, string) {
 	var sb strings.Builder
-	sb.WriteString(rapid.SampledFrom([]string{"", "<?xml version=\"1.0\"?>\n", "<?xml version=\"1.0\" encoding=\"UTF-8\"?>\n", "\n", "<!-- exported -->\n"}).Draw(t, "prolog"))
+	enc := ""
+	if rapid.IntRange(0, 5).Draw(t, "declaredEncoding") == 3 {
+		// documents exported by non-Unicode systems / XML file ports declare their code page
+		enc = rapid.SampledFrom([]string{"US-ASCII", "ISO-8859-1", "iso-8859-1", "us-ascii"}).Draw(t, "encoding")
+		if vfkit.Known(c45FindEncoding) {
+			// excluded by construction: an XML declaration naming an encoding other than UTF-8
+			excl[c45FindEncoding] = true
+			enc = ""
+		}
+	}
+	if enc != "" {
+		sb.WriteString("<?xml version=\"1.0\" encoding=\"" + enc + "\"?>\n")
+	} else {
+		sb.WriteString(rapid.SampledFrom([]string{"", "<?xml version=\"1.0\"?>\n", "<?xml version=\"1.0\" encoding=\"UTF-8\"?>\n", "<?xml version=\"1.0\" encoding=\"utf-8\"?>\n", "\n", "<!-- exported -->\n"}).Draw(t, "prolog"))
+	}
 	root.write(&sb)
 	sb.WriteString(rapid.SampledFrom([]string{"", "\n", "\n<!-- end -->\n"}).Draw(t, "epilog"))
-	return sb.String()
+	doc := sb.String()
+	switch strings.ToUpper(enc) {
+	case "US-ASCII":
+		text, raw := c45Encode(doc, 0x7f)
+		return text, raw, enc
+	case "ISO-8859-1":
+		text, raw := c45Encode(doc, 0xff)
+		return text, raw, enc
+	}
+	return doc, []byte(doc), ""
 }
 
 func c45Draw(t *rapid.T) c45Case {
@@ -550,7 +596,7 @@ func c45Draw(t *rapid.T) c45Case {
 	cs.cfg.PartnerSegments = route("partners")
 	cs.cfg.StatusSegments = route("statuses")
 	cs.cfg.DateSegments = route("dates")
-	cs.xml = c45Serialize(t, root)
+	cs.xml, cs.raw, cs.enc = c45Serialize(t, root, cs.excl)
 	return cs
 }
 
@@ -569,12 +615,15 @@ func TestVF_C45_Explode(t *testing.T) {
 	rapid.Check(t, func(t *rapid.T) {
 		cs := c45Draw(t)
 		st.Eval()
-		for id := range map[string]bool{c45FindAutoClose: cs.excl[c45FindAutoClose], c45FindTwoRoutes: cs.excl[c45FindTwoRoutes]} {
+		if cs.enc != "" {
+			st.Class("declared-encoding-" + strings.ToUpper(cs.enc))
+		}
+		for id := range map[string]bool{c45FindAutoClose: true, c45FindTwoRoutes: true, c45FindEncoding: true} {
 			if cs.excl[id] {
 				st.ExcludedCase(id)
 			}
 		}
-		res, err := ExplodeXML([]byte(cs.xml), cs.cfg)
+		res, err := ExplodeXML(cs.raw, cs.cfg)
 		if err != nil {
 			t.Fatalf("well-formed document rejected: %v\n%s", err, cs.xml)
 		}
@@ -691,6 +740,24 @@ func TestVF_C45_Witness(t *testing.T) {
 		}
 		st.KnownResult(id, msg != "", fmt.Sprintf("%s with config %+v: %s", sb.String(), cfg, msg))
 		t.Logf("%s: stillFails=%v %s", id, msg != "", msg)
+	}
+	// a well-formed document whose XML declaration names US-ASCII (pure ASCII content)
+	{
+		st.Eval()
+		root := c45Parent("ORDERS05", c45Parent("IDOC", c45Parent("E1EDKA1", c45Leaf("NAME1", "ACME"))))
+		cfg := ExplodeConfig{PartnerSegments: []string{"E1EDKA1"}}
+		var sb strings.Builder
+		sb.WriteString("<?xml version=\"1.0\" encoding=\"US-ASCII\"?>")
+		root.write(&sb)
+		res, err := ExplodeXML([]byte(sb.String()), cfg)
+		msg := ""
+		if err != nil {
+			msg = "well-formed document rejected: " + err.Error()
+		} else {
+			msg = c45Oracle(root, cfg, res)
+		}
+		st.KnownResult(c45FindEncoding, msg != "", fmt.Sprintf("%s: %s", sb.String(), msg))
+		t.Logf("%s: stillFails=%v %s", c45FindEncoding, msg != "", msg)
 	}
 	// the same segment name configured for items and partners: only Items receives it
 	run(c45FindTwoRoutes, c45Parent("IDOC", c45Parent("E1EDKA1", c45Leaf("PARVW", "AG"))),
